@@ -158,11 +158,13 @@ theorem handled_session_is_the_peers (st : St) (p : Peer) :
 
 /-- Exactly one session-new event per session ever created, at most one session-deleted event, never a deleted event
 without (or before the only) new event; a live session has had its new event and no deleted event, a session that is
-gone has had exactly as many deleted as new events. -/
+gone has had exactly as many deleted as new events — unless it ended as a CLIENT session (`handed`, M's ghost record of
+`coap_session_release` freeing a session the application had taken over with coap_session_set_type_client: libcoap
+raises no SERVER_SESSION_DEL for it, it is no server session any more): deleted + handed = new. -/
 theorem one_new_one_del_per_session {st : St} (h : Reachable st) (x : Nat) :
     st.events.count (.new x) ≤ 1 ∧ st.events.count (.del x) ≤ st.events.count (.new x) ∧
-    (x ∈ st.sids → st.events.count (.new x) = 1 ∧ st.events.count (.del x) = 0) ∧
-    (x ∉ st.sids → st.events.count (.del x) = st.events.count (.new x)) := by
+    (x ∈ st.sids → st.events.count (.new x) = 1 ∧ st.events.count (.del x) = 0 ∧ st.events.count (.handed x) = 0) ∧
+    (x ∉ st.sids → st.events.count (.del x) + st.events.count (.handed x) = st.events.count (.new x)) := by
   have hS := (reachable_inv h).S
   by_cases hx : x ∈ st.sids
   · have := hS.evLive x hx
@@ -268,7 +270,7 @@ theorem oldest_idle_evicted_at_limit {st : St} (h : Reachable st) (p : Peer) (hl
   constructor
   · simp [St.newSession, freeSess, St.dropPartial]
   · intro s hs
-    have hs' : s ∈ st.sessions.filter (fun t => t.sid ≠ o.sid) ++ [(⟨st.next, st.nsess, p, 0, st.now, 0, 0, 0, false, 0⟩ : Sess)] := hs
+    have hs' : s ∈ st.sessions.filter (fun t => t.sid ≠ o.sid) ++ [(⟨st.next, st.nsess, p, 0, st.now, 0, 0, 0, false, 0, false⟩ : Sess)] := hs
     rcases List.mem_append.mp hs' with h1 | h1
     · simpa using (List.mem_filter.mp h1).2
     · simp only [List.mem_singleton] at h1; subst h1
@@ -437,7 +439,7 @@ theorem referenced_session_survives_pass {st : St} (h : Reachable st) (now : Nat
     simp at this
     exact hr this.1
   have hI' : Inv (st.prepareIoAt now) := Inv.closed.prepareIoAt (reachable_inv h) now
-  exact ⟨hk, (hI'.S.evLive t.sid (List.mem_map.mpr ⟨t, hk, rfl⟩)).2⟩
+  exact ⟨hk, (hI'.S.evLive t.sid (List.mem_map.mpr ⟨t, hk, rfl⟩)).2.1⟩
 
 /-- A session with an open connection that was used at or after the `now` of the pass (its `last_rx_tx ≥ now`: e.g. the
 delayed response of a slow handler has just been sent on it and its async entry — the only reference — has been dropped)
@@ -457,7 +459,7 @@ theorem session_used_after_now_survives {st : St} (h : Reachable st) (now : Nat)
       · rw [ho] at h2; cases h2)
   refine ⟨hk, ?_⟩
   have hI' : Inv (st.prepareIoAt now) := Inv.closed.prepareIoAt (reachable_inv h) now
-  exact (hI'.S.evLive t.sid (List.mem_map.mpr ⟨t, hk, rfl⟩)).2
+  exact (hI'.S.evLive t.sid (List.mem_map.mpr ⟨t, hk, rfl⟩)).2.1
 
 /-! ### what hangs off a session goes with it -/
 
@@ -617,12 +619,12 @@ holders and every reference count are unchanged; the new node hangs off the sess
 `partial_pdu_hangs_off_live_session` its session is live and by `reclaim_releases_partial_pdu` / `teardown_state_empty`
 it is released with it), and the session is not idle any more (`delayqueue != NULL`). -/
 theorem delayed_send_takes_no_reference (st : St) (p : Peer) (s : Sess) (hf : st.freed = false) (hl : st.lookup p = some s)
-    (hr : s.peer.reliable = false) (hc : s.conActive ≥ NSTART) :
+    (hr : s.peer.reliable = false) (hcl : s.client = false) (hc : s.conActive ≥ NSTART) :
     (st.step (.sendCon p)).1.holders = st.holders ∧
     (st.step (.sendCon p)).1.sessions.map (fun t => (t.sid, t.ref)) = st.sessions.map (fun t => (t.sid, t.ref)) ∧
     (st.step (.sendCon p)).1.partials = st.partials ++ [(st.next, s.sid)] := by
   unfold St.step
-  simp only [hf, Bool.false_eq_true, if_false, hl, hr, hc, if_true]
+  simp only [hf, Bool.false_eq_true, if_false, hl, hr, hcl, Bool.or_self, hc, if_true]
   refine ⟨rfl, ?_, rfl⟩
   simp only [St.addPartial, St.updSess, List.map_map]
   apply List.map_congr_left
